@@ -24,3 +24,8 @@ type Scalars struct {
 	Only bool
 	Leaf Leaf
 }
+
+// PlainMap / Bag: struct types that bear the names of the zoo's named map type PlainMap and named slice type Bag
+// (what an encoder learns about the struct must not be taken for the map or list type of the same name).
+type PlainMap struct{ A int32 }
+type Bag struct{ A int32 }
